@@ -214,8 +214,8 @@ theorem romCheck_gen (hl : CryptoLaws co) (k : ClsF c) (g : CfgF c cfg) (hf : c.
             Spec.MbiRom.romSignedV1 co (romEnvOf c rkth cfg.hmacKey) v.1 v.2.1)
          else Spec.MbiRom.romSignedV1 co (romEnvOf c rkth cfg.hmacKey) img 0) := by
   have hfl : Spec.MbiRom.rd32 img Spec.MbiRom.offFlags = flagsOf c cfg := hflags
-  have hty : flagsOf c cfg &&& Spec.MbiRom.maskImageType = c.imageType := flags_type k g
-  have htz : (flagsOf c cfg >>> Spec.MbiRom.shiftTzType) &&& Spec.MbiRom.maskTzType = cfg.tz.tag := (flags_get k g).1
+  have hty : flagsOf c cfg &&& Spec.MbiRom.maskImageType = c.imageType := (rom_type _).trans (flags_type k g)
+  have htz : (flagsOf c cfg >>> Spec.MbiRom.shiftTzType) &&& Spec.MbiRom.maskTzType = cfg.tz.tag := (rom_tz _).trans (flags_get k g).1
   have htot : Spec.MbiRom.rd32 img Spec.MbiRom.offTotalLength = (if c.zeroTotalLength then 0 else img.length) := by
     have : Spec.MbiRom.rd32 img Spec.MbiRom.offTotalLength = rd32 img ivtImageLengthOffset := rfl
     rw [this, htotal, imgOf_head co k g _ _ (by decide), (ivtApp_words k g).1, hlen, imgOf_length_total hl k g sig hs]
